@@ -156,6 +156,10 @@ func genCase(t *rapid.T) Case {
 				live[op.C] = append(live[op.C], op.Ch)
 			}
 		default:
+			if rapid.IntRange(0, 2).Draw(t, "again") == 0 {
+				op.K = "connect-again" // CONNECT once more on the connection the client already has: accepted, and nothing it holds changes
+				break
+			}
 			op.K = "reconnect"
 			live[op.C], links[op.C], linkOps[op.C] = nil, nil, nil
 		}
@@ -540,6 +544,11 @@ func run(c Case) (res vkit.Result) {
 			if !accepted {
 				labels["publish-refused"] = true
 			}
+		case "connect-again":
+			if err := m.c.Connect(fmt.Sprintf("client-%d-%d", op.C, m.gen), "", nil); err != nil {
+				return fail("step %d: a further CONNECT on the same connection: %v", step, err)
+			}
+			labels["connect-again"] = true
 		case "reconnect":
 			if err := m.c.Close(); err != nil {
 				return fail("step %d: close of client %d: %v", step, op.C, err)
